@@ -26,9 +26,10 @@ def _mat(case):
         M = [[fr(x) for x in row] for row in case["W"]]
         if case.get("dtype") == "int" and all(x.denominator == 1 for r in M for x in r):
             return np.array([[int(x) for x in r] for r in M], dtype=np.int64)
-        return np.array([[float(x) for x in r] for r in M], dtype=float)
-    from props.gcommon import DTYPES
-    return np.array(case["A"], dtype=DTYPES.get(case.get("dtype", "int")))
+        from props.gcommon import relayout
+        return relayout(np.array([[float(x) for x in r] for r in M], dtype=float))
+    from props.gcommon import DTYPES, relayout
+    return relayout(np.array(case["A"], dtype=DTYPES.get(case.get("dtype", "int"))))
 
 
 def check_long(case):
